@@ -1,9 +1,99 @@
 import ALV.Common.Json
+import ALV.Model.C03
+import ALV.Spec.C03
 namespace ALV.Driver.C03
-open ALV ALV.J
+open ALV ALV.J ALV.C03
 
-/-- stub: the C03 slice is not built yet -/
-def handle (entry : String) (_j : Json) : Except String Json :=
-  throw s!"C03: unknown entry {entry}"
+/-- the element functions a history may use (the harness holds the same table in Python) -/
+def mapTable (k : Nat) : Int → Int :=
+  match k with
+  | 0 => fun x => x + 1
+  | 1 => fun x => 2 * x
+  | 2 => fun x => -x
+  | 3 => fun x => x * x
+  | 4 => fun x => x % 3          -- Python `%` with a positive modulus = Int.emod
+  | 5 => fun x => x - 7
+  | _ => fun x => x
+
+def predTable (k : Nat) : Int → Bool :=
+  match k with
+  | 0 => fun x => x % 2 == 0
+  | 1 => fun x => decide (x > 0)
+  | 2 => fun x => x != 0
+  | 3 => fun x => x % 3 != 1
+  | 4 => fun _ => true
+  | 5 => fun _ => false
+  | 6 => fun x => decide (x < 5)
+  | _ => fun _ => true
+
+def getCnt (j : Json) : Except String Cnt := do
+  let t ← getStr (← field j "t")
+  match t with
+  | "none" => pure .none
+  | "int" => pure (.int (← getInt (← field j "v")))
+  | "flt" => pure (.flt (← getRat (← field j "v")))
+  | "inf" => pure .inf
+  | "ninf" => pure .ninf
+  | "nan" => pure .nan
+  | _ => throw s!"bad count {t}"
+
+def getSrc (j : Json) : Except String (Src Int) := do
+  let k ← getStr (← field j "k")
+  match k with
+  | "list" => pure (.list (← getList getInt (← field j "xs")))
+  | "cyc" => pure (.cyc (← getList getInt (← field j "xs")))
+  | "chain" => pure (.chain (← getList (getList getInt) (← field j "xss")))
+  | "const" => pure (.const (← getInt (← field j "v")))
+  | "obj" => pure (.obj (← getNat (← field j "j")))
+  | _ => throw s!"bad source {k}"
+
+def getOp (j : Json) : Except String (Op Int) := do
+  let o ← getStr (← field j "op")
+  let i : Except String Nat := do getNat (← field j "i")
+  match o with
+  | "new" => pure (.new (← getSrc (← field j "src")))
+  | "take" => pure (.take (← i) (← getCnt (← field j "n")))
+  | "peek" => pure (.peek (← i) (← getCnt (← field j "n")))
+  | "skip" => pure (.skip (← i) (← getCnt (← field j "n")))
+  | "limit" => pure (.limit (← i) (← getCnt (← field j "n")))
+  | "append" => pure (.append (← i) (← getSrc (← field j "src")))
+  | "map" => pure (.map (← i) (mapTable (← getNat (← field j "f"))))
+  | "filter" => pure (.filter (← i) (predTable (← getNat (← field j "p"))))
+  | "copy" => pure (.copy (← i))
+  | "next" => pure (.next (← i))
+  | "drain" => pure (.drain (← i))
+  | "thub" => pure (.thub (← getSrc (← field j "src")) (← getNat (← field j "n")))
+  | "tee" => pure (.tee (← i) (← getNat (← field j "n")))
+  | _ => throw s!"bad op {o}"
+
+def obsJson : Option (Obs Int) → Json
+  | none => Json.mkObj [("hang", Json.bool true)]
+  | some .unit => Json.mkObj [("self", Json.bool true)]
+  | some (.item v) => Json.mkObj [("x", Json.int v)]
+  | some (.items vs) => Json.mkObj [("v", ints vs)]
+  | some (.new k) => Json.mkObj [("new", nats [k])]
+  | some (.news ks) => Json.mkObj [("new", nats ks)]
+  | some (.const v) => Json.mkObj [("const", Json.int v)]
+  | some (.err e) => Json.mkObj [("err", Json.str e)]
+
+/-- fuel of the model run: bounds the nesting depth of iterators plus the longest run of
+    items a `filter` rejects / a `list()` collects in one call -/
+def fuel : Nat := 20000
+
+def handle (entry : String) (j : Json) : Except String Json := do
+  match entry with
+  | "history" =>
+    let ops ← getList getOp (← field j "ops")
+    let m := run fuel (St.empty : St Int) ops
+    let s := specRun ([] : SPool Int) ops
+    pure <| Json.mkObj [("model", arr obsJson m), ("spec", arr obsJson s)]
+  | "count" =>
+    let c ← getCnt (← field j "n")
+    let tm : Json := match takeMode c with
+      | .one => Json.str "one" | .all => Json.str "all" | .n k => natToJson k
+    let rc : Json := match roundCount c with
+      | .ok k => natToJson k | .error e => Json.str e
+    pure <| Json.mkObj [("take", tm), ("round", rc)]
+  | _ => throw s!"C03: unknown entry {entry}"
 
 end ALV.Driver.C03
